@@ -222,12 +222,26 @@ def passes_natively(fn: dict) -> bool:
 # ------------------------------------------------------------------------------------------------ running
 
 
+_run_cache = {}
+
+
 def run_program(prog: dict, args, assume, sem="E", max_steps=20000, max_paths=400, timeout_ms=10000, deadline_s=None):
     if deadline_s is None:
         deadline_s = 90 if os.environ.get("VERIF_TIER", "quick") == "quick" else 240
+    # the same program is explored again and again when it is compared with several variants (C14: the silent build against
+    # every trace setting; variants that generate identical code): explorations are memoised per process on the program text,
+    # the argument names and the assumptions (symbolic arguments are z3 constants with deterministic names)
+    key = (hashlib.sha256(json.dumps(prog["term"], sort_keys=True).encode()).hexdigest(), tuple(str(getattr(a, "v", a)) for a in args),
+           tuple(a.sexpr() if hasattr(a, "sexpr") else str(a) for a in assume), sem, max_steps, max_paths)
+    hit = _run_cache.get(key)
+    if hit is not None:
+        paths, stats = hit
+        return paths, dict(stats, queries=0, solver_s=0.0), 0.0
     m = Machine(semantics=sem, max_steps=max_steps, max_paths=max_paths, solver_timeout_ms=timeout_ms, deadline_s=deadline_s)
     t = time.time()
     paths = m.run(parse_term(prog["term"]), args, assume)
+    if len(_run_cache) < 400:
+        _run_cache[key] = (paths, dict(m.stats))
     return paths, m.stats, time.time() - t
 
 
@@ -262,6 +276,7 @@ def _init_worker():
     # a forked worker must not share the parent's driver pipes
     D._drivers.clear()
     _compile_cache.clear()
+    _run_cache.clear()
 
 
 def pmap(func, items, jobs=None):
